@@ -202,7 +202,20 @@ func (d *DHCPv4) Len() uint16 {
 // SerializationBuffer, implementing gopacket.SerializableLayer.
 // See the docs for gopacket.SerializableLayer for more info.
 func (d *DHCPv4) SerializeTo(b gopacket.SerializeBuffer, opts gopacket.SerializeOptions) error {
-	plen := int(d.Len())
+	// The size is counted from what the loop below writes, not taken from Len():
+	// Len() trusts o.Length and counts in uint16, the loop advances by len(o.Data).
+	// An option where the two disagree cannot be encoded.
+	plen := 240 + 1 // header and magic cookie, End option
+	for _, o := range d.Options {
+		if o.Type == DHCPOptPad {
+			plen++
+			continue
+		}
+		if len(o.Data) != int(o.Length) {
+			return fmt.Errorf("DHCPv4 option %d: Length is %d but Data has %d bytes", o.Type, o.Length, len(o.Data))
+		}
+		plen += 2 + len(o.Data)
+	}
 
 	data, err := b.PrependBytes(plen)
 	if err != nil {
